@@ -10,7 +10,10 @@ does in each of them) is
 established by the constructor, preserved by every loop turn and return, makes
 both index operations in bounds, and every terminal post-state is absorbing
 (re-analysis from that state yields only None/Err and reaches no unprovable
-index); (R5) panic sites on these poll paths are discharged under the invariant.
+index); (R5) panic sites on these poll paths are discharged under the invariant;
+(R6) `Body::poll_frame` and the stream enum add nothing of their own: they poll the
+wrapped stream once and hand its answer on, so what holds for the streams holds for
+the body.
 Does not decide: entity streams that resurrect after finishing (excluded by the
 statement)."""
 from . import bodyrules as BR
@@ -27,3 +30,4 @@ def run(ctx):
     BR.exactlen_fused(ctx, "C20.R3")
     MP.constructor_inv(ctx, "C20.R4")
     MP.stream_invariant(ctx, "C20.R4")
+    BR.layers_transparent(ctx, "C20.R6")
